@@ -66,6 +66,7 @@ type Case struct {
 	SubPick      int    `json:"subpick"`      // which earlier sub-channel transaction goes with it
 	Order        []int  `json:"order"`
 	Concurrent   bool   `json:"concurrent"`
+	Rewatch      bool   `json:"rewatch,omitempty"` // H calls Watch a second time on its watched sub-channel (the call fails, as it must)
 	CtxEnds      bool   `json:"ctxends,omitempty"` // the context H's update handler passes to Accept ends the moment its acceptance is on the wire
 }
 
@@ -120,6 +121,7 @@ func drawCase(t *rapid.T) Case {
 		}
 	}
 	c.CtxEnds = rapid.IntRange(0, 3).Draw(t, "ctxends") == 0
+	c.Rewatch = rapid.IntRange(0, 3).Draw(t, "rewatch") == 0
 	c.OldPick = rapid.IntRange(0, 40).Draw(t, "oldpick")
 	c.SubPick = rapid.IntRange(0, 40).Draw(t, "subpick")
 	switch rapid.IntRange(0, 2).Draw(t, "order") {
@@ -317,6 +319,16 @@ func runCase(c Case, known func(string) bool) *h.Outcome {
 			}
 			subID, haveSub = pr.Sub[0].ID(), true
 			o.Class("with-sub-channel")
+			if c.Rewatch {
+				err, started := pr.P[H].WatchAgain(pr.Sub[H], sim.HangLimit)
+				switch {
+				case !started:
+					return fail("harness-rewatch", "step %d: the honest party's sub-channel was not registered with its watcher", si)
+				case err == nil:
+					return fail("hang:second-watch", "step %d: a second Watch call on the honest party's watched sub-channel did not return", si)
+				}
+				o.Class("second-watch-call-refused")
+			}
 		case "subclose":
 			if pr.Sub[0] == nil {
 				continue
